@@ -139,7 +139,7 @@ impl Property for C08 {
     }
     fn runs(&self, tier: Tier) -> u64 {
         match tier {
-            Tier::Quick => 12_000,
+            Tier::Quick => 20_000,
             Tier::Thorough => 300_000,
         }
     }
